@@ -113,6 +113,18 @@ struct Ex {
     Array args;
     for (const Expr *A : CE->arguments()) args.push_back(isa<CXXDefaultArgExpr>(A) ? std::string("<default>") : exprText(Ctx, A));
     o["args"] = std::move(args);
+    {
+      // written type of pointer arguments (before the implicit conversion to void*): `setUHdata(&cv)` with long cv -> "long"
+      Array at;
+      bool any = false;
+      for (const Expr *A : CE->arguments()) {
+        const Expr *X = strip(A);
+        std::string t;
+        if (X && X->getType()->isPointerType()) { t = X->getType()->getPointeeType().getUnqualifiedType().getAsString(); any = true; }
+        at.push_back(t);
+      }
+      if (any) o["argptr"] = std::move(at);
+    }
     if (auto *MC = dyn_cast<CXXMemberCallExpr>(CE)) {
       if (const Expr *Obj = MC->getImplicitObjectArgument()) {
         o["recv"] = exprText(Ctx, Obj);
@@ -201,6 +213,17 @@ struct Ex {
       o["text"] = exprText(Ctx, DE->getArgument());
       o["line"] = lineOf(SM, DE->getBeginLoc());
       return true;
+    }
+    if (auto *EC = dyn_cast<ExplicitCastExpr>(S)) {
+      // reinterpretation of a raw pointer handed out by a call (header regions, chunk addresses): the element type matters
+      if (EC->getType()->isPointerType()) if (auto *CE = dyn_cast_or_null<CallExpr>(strip(EC->getSubExpr()))) if (const FunctionDecl *F = calleeOf(CE)) {
+        o["k"] = "cast";
+        o["to"] = EC->getType()->getPointeeType().getUnqualifiedType().getAsString();
+        o["of"] = qualName(F);
+        o["line"] = lineOf(SM, EC->getBeginLoc());
+        return true;
+      }
+      return false;
     }
     if (auto *TE = dyn_cast<CXXThrowExpr>(S)) {
       o["k"] = "throw";
@@ -389,6 +412,7 @@ Value runFacts(ASTContext &Ctx) {
     f["line"] = lineOf(SM, FD->getLocation());
     f["endline"] = lineOf(SM, FD->getEndLoc());
     f["tmpl"] = FD->isTemplateInstantiation();
+    f["rettype"] = FD->getReturnType().getAsString();
     if (auto *MD = dyn_cast<CXXMethodDecl>(FD)) {
       const CXXRecordDecl *RD = MD->getParent();
       f["class"] = qualName(RD);
